@@ -542,3 +542,19 @@ def _lemma_quiver(interp):
 
 
 lemma('cat.Quiver.wraps', _lemma_quiver, ('C19',))
+
+
+def _canary_pro(interp):
+    """over the assumed model of PRO (pro_of with its lengths, additivity, PRO of a PRO): a false statement must be refuted"""
+    ex, w = interp.ex, interp.world
+    f, ff, n0, m0 = _function(ex, 'f')
+    g, gf, n1, m1 = _function(ex, 'g')
+    for a, b in ((n0, n1), (m0, m1)):
+        ex.assume(T.ty_concat(T.pro_of(a), T.pro_of(b)) == T.pro_of(a + b))
+    both = w.construct(interp, 'rigid.PRO', [VTy(T.ty_concat(f.attrs['dom'].t, g.attrs['dom'].t))], {})
+    _make_function(interp, [both, g.attrs['cod'], ff], {})
+    ex.prove('canary:two PRO types of any lengths are equal', T.ty_eq(both.t, f.attrs['cod'].t))
+
+
+_c = lemma('canary:pro.model', _canary_pro, ())
+_c.canary = True
